@@ -72,30 +72,37 @@ theorem deltaWork_bounds (d buf : Bytes) (idx : Nat) (cs : Int) :
     refine ⟨?_, ?_, ?_, ?_⟩ <;> simp only [n] at * <;> omega
   | case6 buf idx cs hcs => simp
 
+theorem spriteRounds_nil (lay : Layout) : spriteRounds lay [] = 0 := by rw [spriteRounds.eq_def]
+
 theorem spriteRounds_le (lay : Layout) (rest : Bytes) : spriteRounds lay rest * lay.frameSize ≤ rest.length + (lay.frameSize - 1) := by
   fun_induction spriteRounds lay rest with
   | case1 => simp
   | case2 b bs e he =>
     have := lay.frameSize_pos
-    simp only [List.length_cons]; omega
+    simp only [he, List.length_cons, Nat.one_mul]; omega
   | case3 b bs s hs ih =>
     have hp := lay.frameSize_pos
-    simp only [List.length_drop, List.length_cons] at ih ⊢
+    simp only [hs]
     rw [Nat.add_mul, Nat.one_mul]
-    omega
+    by_cases hsmall : (b :: bs).length ≤ lay.frameSize
+    · rw [List.drop_of_length_le hsmall, spriteRounds_nil]; simp; omega
+    · simp only [List.length_drop, List.length_cons] at ih hsmall ⊢
+      omega
 
 /-- one call of parse_vwsc_channels makes at most one sprite-loop round per `frame_size` bytes of the channel buffer -/
 theorem parseRounds_le (lay : Layout) (buf : Bytes) : parseRounds lay buf ≤ buf.length / lay.frameSize := by
   have hp := lay.frameSize_pos
   unfold parseRounds
   split
-  · omega
+  · exact Nat.zero_le _
   · split
-    · omega
-    · have := spriteRounds_le lay (buf.drop (lay.frameSize + lay.frameSize))
-      rw [Nat.le_div_iff_mul_le hp]
-      simp only [List.length_drop] at this
-      omega
+    · exact Nat.zero_le _
+    · by_cases hsmall : buf.length ≤ lay.frameSize + lay.frameSize
+      · rw [List.drop_of_length_le hsmall, spriteRounds_nil]; exact Nat.zero_le _
+      · have := spriteRounds_le lay (buf.drop (lay.frameSize + lay.frameSize))
+        rw [Nat.le_div_iff_mul_le hp]
+        simp only [List.length_drop] at this
+        omega
 
 /-- all five counters of the record loop, for any bytes and any state: the invariant of the induction over the records -/
 theorem recWork_bounds (lay : Layout) (d : Bytes) (N : Nat) :
@@ -149,5 +156,59 @@ theorem recWork_bounds (lay : Layout) (d : Bytes) (N : Nat) :
                     sprites := acc.sprites + parseRounds lay s.buf } rfl (by rw [hlen, hb])
                 simp only [hmul] at this ⊢; omega
     · simp only; omega
+
+/-! ### header: what the validated words bound -/
+
+theorem lookup_channelParsers (k : Nat) :
+    Gen.Score.channelParsers.lookup k =
+      if k = 20 then some ("D4VwscChannelParser", 20) else if k = 24 then some ("D5VwscChannelParser", 24) else none := by
+  unfold Gen.Score.channelParsers
+  by_cases h20 : k = 20
+  · subst h20; rfl
+  · by_cases h24 : k = 24
+    · subst h24; rfl
+    · have e20 : (k == 20) = false := by simpa using h20
+      have e24 : (k == 24) = false := by simpa using h24
+      simp [List.lookup, e20, e24, h20, h24]
+
+theorem lookupParser_ok (fs : Int) (lay : Layout) (h : lookupParser fs = .ok lay) : fs = ((lay.frameSize : Nat) : Int) := by
+  unfold lookupParser at h
+  split at h
+  · cases h
+  · rename_i hneg
+    rw [lookup_channelParsers] at h
+    by_cases h20 : fs.toNat = 20
+    · simp [h20] at h; subst h; simp [Layout.frameSize]; omega
+    · by_cases h24 : fs.toNat = 24
+      · simp [h24] at h; subst h; simp [Layout.frameSize]; omega
+      · simp [h20, h24] at h
+
+theorem ordNat_lt (o : Order) (s : Bytes) : ordNat o s < 256 ^ s.length := by
+  cases o with
+  | be => exact beNat_lt s
+  | le => have := beNat_lt s.reverse; simpa [ordNat, leNat] using this
+
+theorem unpackS2_le (o : Order) (s : Bytes) (v : Int) (h : unpackS o 2 s = .ok v) : v ≤ 32767 := by
+  unfold unpackS at h
+  split at h
+  · rename_i hl
+    cases h
+    have := ordNat_lt o s
+    rw [hl] at this
+    unfold toSigned
+    split <;> omega
+  · cases h
+
+theorem parseHeader_ok (d : Bytes) (h : Header) (hh : parseHeader d = .ok h) :
+    h.frameSize = ((h.lay.frameSize : Nat) : Int) ∧ 0 ≤ h.channelCount * h.frameSize ∧ h.channelCount ≤ 32767 ∧ 20 ≤ d.length := by
+  unfold parseHeader at hh
+  simp only [bind, Except.bind, pure, Except.pure, throw, throwThe, MonadExceptOf.throw] at hh
+  repeat' split at hh
+  all_goals (try (cases hh; done))
+  rename_i v0 _ v4 _ _ _ _ v8 _ v12 _ fsz hfs _ cc hcc _ v18 h18 _ lay hlay _
+  cases hh
+  refine ⟨lookupParser_ok _ _ hlay, by show (0 : Int) ≤ cc * fsz; omega, unpackS2_le _ _ _ hcc, ?_⟩
+  have := getS_ok_len _ 2 (by decide) _ _ _ h18
+  omega
 
 end Drx.Vwsc
